@@ -26,6 +26,14 @@ func genField(t *rapid.T, provs []pop.ProvSpec, forceEmptyOptional bool) pop.Fie
 		return pop.FieldSpec{Type: typ, Tag: `wire:",qualifier=gX,required=false"`}
 	}
 	args := ""
+	// now and then other arguments are written in front of the qualifier (a bare flag, a named one): they do not
+	// change which components the qualifier admits
+	switch rapid.IntRange(0, 5).Draw(t, "leadingarg") {
+	case 0:
+		args += ",note"
+	case 1:
+		args += ",note=a b"
+	}
 	switch rapid.IntRange(0, 5).Draw(t, "qkind") {
 	case 0:
 	case 1:
